@@ -17,8 +17,8 @@ class PreludeMixin:
                 'float', 'bool', 'isinstance', 'all', 'any', 'zip', 'enumerate', 'reversed', 'sum', 'abs',
                 'getattr', 'pow', 'iter', 'next', 'type', 'repr', 'print', 'frozenset', 'hasattr'}
     SPEC_BUILTINS = {'vec_le', 'vec_ge', 'vec_lt', 'vec_eq', 'vec_zero', 'dom', 'is_none', 'to_real', 'length',
-                     'keys_subset', 'str_to_int', 'alive', 'in_prefix', 'name_of', 'str_of', 'clock_now', 'dict_put', 'dict_del', 'set_put', 'set_del', 'counter_inc', 'is_digits', 'select', 'strlen', 'cls_is', 'distinct_list'}
-    LIB_CONSTS = {'sys.maxsize': 9223372036854775807, 'np.inf': INF, 'numpy.inf': INF, 'math.inf': INF}
+                     'keys_subset', 'str_to_int', 'alive', 'in_prefix', 'name_of', 'str_of', 'clock_now', 'fs_kind', 'fs_target', 'path', 'dict_put', 'dict_del', 'set_put', 'set_del', 'counter_inc', 'is_digits', 'select', 'strlen', 'cls_is', 'distinct_list'}
+    LIB_CONSTS = {'errno.ENOENT': 2, 'errno.EEXIST': 17, 'errno.EINVAL': 22, 'sys.maxsize': 9223372036854775807, 'np.inf': INF, 'numpy.inf': INF, 'math.inf': INF}
     LIB_MODULES_ALIAS = {}
     LIB_MODULES = {'six.moves', 'os.path', 'six.moves.urllib', 'np.random'}
 
@@ -781,6 +781,8 @@ class PreludeMixin:
         v = args[0]
         if isinstance(v, str):
             return v
+        if isinstance(v, SVal) and v.kind == KName:
+            return v            # str() of a name-like value is the name
         return SVal(KStr, [self.to_str(v)])
 
     def b_float(self, st, fr, args, kw):
@@ -905,6 +907,11 @@ class PreludeMixin:
 
     b_six_viewitems = b_six_iteritems
 
+    def b_ipaddress_IPv4Address(self, st, fr, args, kw):
+        return args[0]          # addresses are compared and rendered only: kept as their text
+
+    b_ipaddress_ip_address = b_ipaddress_IPv4Address
+
     def b_math_floor(self, st, fr, args, kw):
         v = args[0]
         if not isinstance(v, SVal):
@@ -1026,6 +1033,8 @@ class PreludeMixin:
             return ops.set_discard(args[0], args[1])
         if name == 'counter_inc':
             return ops.counter_add(args[0], args[1], lift(args[2], KInt).z)
+        if name in ('fs_kind', 'fs_target', 'path'):
+            return self.fs_spec(st, name, args)
         if name == 'clock_now':
             return SR(z3.Select(self.H.get(st.heap, ('$clock', 0), R), 0))
         if name == 'in_prefix':
